@@ -83,8 +83,9 @@ Atom(c) == IF P.ty = "num" THEN Num(c) ELSE StrC(c)
 ScalarVars == Visible \ ((IF P.ty = "str" THEN NumOnly ELSE {}) \cup ArrNames)
 CallArgSets(f, c) == IF P.arity[f] = 0 THEN {<<>>}
                      ELSE IF P.ty = "str" THEN {<<Atom(c)>>} \cup {<<Var(x)>> : x \in ScalarVars} \cup {<<Bin("add", Var(x), Atom(c))>> : x \in ScalarVars \cap (IF "argcat" \in P.kinds THEN ScalarVars ELSE {})}
-                     ELSE IF "k" \in Visible THEN {<<Bin("minus", Var("k"), Num(1))>>} ELSE {<<Num(c % 3)>>}
+                     ELSE IF "k" \in Visible THEN {<<Bin("minus", Var("k"), Num(1))>>} ELSE {<<Num(0)>>, <<Num(2)>>}
 Calls(c) == UNION {{Call(f, as) : as \in CallArgSets(f, c)} : f \in VisibleFuns}
+NumVars == IF P.ty = "num" THEN Visible ELSE Visible \cap NumOnly
 Exprs(c) ==
   {Atom(c)}
   \cup {Var(x) : x \in ScalarVars}
@@ -93,9 +94,10 @@ Exprs(c) ==
   \cup (IF "varvar" \in P.kinds THEN {Bin(op, Var(x), Var(y)) : op \in P.ops, x \in Visible \cap NumOnly, y \in Visible \cap NumOnly} ELSE {})
   \cup (IF "addcall" \in P.kinds THEN {Bin("add", Var(x), e) : x \in Assignable, e \in Calls(c)} ELSE {})
   \cup (IF P.ty = "str" /\ "interp" \in P.kinds THEN {Interp(x) : x \in Assignable} ELSE {})
+  \* operations that can fail at run time: division by a variable, a method on a dynamically typed parameter
+  \cup (IF "trap" \in P.kinds THEN {Bin("divide", Num(c), Var(x)) : x \in NumVars} \cup {MCall(Var(x), "len", <<>>) : x \in Visible \cap {"k"}} ELSE {})
   \cup (IF "arr" \in P.kinds THEN {Idx(Var(a), Num(0)) : a \in VisArr} \cup {MCall(Var(a), "pop", <<>>) : a \in VisArr} ELSE {})
 \* conditions: comparisons of a visible number with a small constant, or a parameter test
-NumVars == IF P.ty = "num" THEN Visible ELSE Visible \cap NumOnly
 Conds(c) == {Bin("lt", Var(x), Num((c % 3) + 1)) : x \in NumVars} \cup {[k |-> "bool", v |-> b] : b \in IF NumVars = {} THEN {TRUE, FALSE} ELSE {}}
 
 Open(kind, id, funs, decl, hdr) == [kind |-> kind, id |-> id, stmts |-> <<>>, decl |-> decl, funs |-> funs, defd |-> {}, hdr |-> hdr]
